@@ -582,12 +582,17 @@ fn main() {
     }
 
     let ctx = Ctx::init("C02", "exploration");
-    ctx.set_rule("inputs = every fixture under cascette-formats/test_fixtures plus small hand-/builder-made valid files per format, mutated: systematic sweep (interesting 8/16/24/32/40/64-bit values BE+LE at every offset of the header regions [first 64 + last 32 bytes of the first 2 seeds in quick; first 256 + last 64 of up to 6 seeds in thorough], truncation at every length <= 64 and the last 64 lengths) + seeded random mutation (value/bit/byte edits biased to header regions, field arithmetic (+1,-1,x2, input-length relatives), truncation, splices with other formats, duplicated/deleted regions, dictionary tokens, token repetition up to 150k, valid prefix + random rest, pure random). A case is non-trivial when its bytes differ from every seed/fixture AND the call was not rejected at the door, i.e. outcome is Ok, a panic/alloc/abort/hang, or an Err whose text does not match an immediate-rejection pattern (magic, signature, too short/small, unexpected end/EOF, failed to fill whole buffer, utf-8, insufficient, empty, not enough, truncated); this is an approximation of 'got past the magic check' by error text. Distinct by hash(target, input, aux).");
+    ctx.set_rule("inputs = every fixture under cascette-formats/test_fixtures plus small hand-/builder-made valid files per format, mutated: systematic sweep (interesting 8/16/24/32/40/64-bit values BE+LE at every offset of the header regions [first 64 + last 32 bytes of the first 2 seeds in quick; first 256 + last 64 of up to 6 seeds, first 1024 of the smallest seed, in thorough], truncation at every length <= 64 and the last 64 lengths) + seeded random mutation (value/bit/byte edits biased to header regions, field arithmetic (+1,-1,x2, input-length relatives), truncation, splices with other formats, duplicated/deleted regions, dictionary tokens, token repetition up to 150k, valid prefix + random rest, pure random). A case is non-trivial when its bytes differ from every seed/fixture AND the call was not rejected at the door, i.e. outcome is Ok, a panic/alloc/abort/hang, or an Err whose text does not match an immediate-rejection pattern (magic, signature, too short/small, unexpected end/EOF, failed to fill whole buffer, utf-8, insufficient, empty, not enough, truncated); this is an approximation of 'got past the magic check' by error text. Distinct by hash(target, input, aux).");
     ctx.assume("the counting allocator sees every heap request of the call (global allocator of the worker binary; mmap-backed allocations by libc are still requested through it)");
     ctx.assume("a panic caught by catch_unwind in the worker is deterministic for the input (no re-run); worker deaths and watchdog time-outs are judged only after three solitary re-runs that all reproduce them");
     ctx.assume("debug-assertions and overflow-checks are on (profile verif = the semantics of the repository's test-suite): arithmetic overflow panics count as panics");
 
-    let tmp = match tempfile::Builder::new().prefix("c02-").tempdir() {
+    // memory-backed scratch space when available: the file-based targets must not be
+    // stalled by other processes' fsync storms on the disk behind /tmp
+    let shm = std::path::Path::new("/dev/shm");
+    let made = if shm.is_dir() { tempfile::Builder::new().prefix("c02-").tempdir_in(shm) } else { tempfile::Builder::new().prefix("c02-").tempdir() };
+    let made = made.or_else(|_| tempfile::Builder::new().prefix("c02-").tempdir());
+    let tmp = match made {
         Ok(t) => t,
         Err(e) => {
             ctx.inconclusive(&format!("no temp dir: {e}"));
@@ -666,8 +671,8 @@ fn run(sh: &Shared, families: &Families) {
     let ctx = sh.ctx;
     let targets = sh.targets;
     let quick = ctx.quick();
-    let random_per_target: usize = ctx.pick(10_000, 120_000);
-    let deadline = Instant::now() + Duration::from_secs(ctx.pick(60, 9 * 60 + 20));
+    let random_per_target: usize = ctx.pick(10_000, 100_000);
+    let deadline = Instant::now() + Duration::from_secs(ctx.pick(55, 8 * 60 + 30));
     let pool: Vec<&Seed> = families.values().flat_map(|v| v.iter()).filter(|s| s.data.len() <= 70_000).collect();
 
     let empty: Vec<Seed> = Vec::new();
